@@ -90,6 +90,8 @@ def check(run, tier):
             cur[c] = cur[c] - amount if op == "remove" else cur[c] + amount
         raw.append({"x": "rawlimit", "kind": "plate" if i % 3 else "trough", "via": "worklist" if i % 4 == 0 else "direct",
                     "min": mn, "max": mx, "init": init, "steps": steps})
+        if i % 5 == 0:
+            raw.append(dict(raw[-1], init_dtype="float32" if i % 2 else "float16"))
     run_calls(run, raw, nontrivial=lambda rec: rec["nsteps"] > 1)
     run.assumptions += ["limits and volumes lie on an exact grid so that comparisons at the boundary are decided without float noise"]
 
